@@ -135,7 +135,15 @@ def gen_condition(rng, snap, prefix, tz="UTC"):
 
         def pred(e, op=op, lit=lit):
             return model.compare("date", op, model.col_value(e, "modified", prefix, tz)[1], lit, tz=tz)
-        return "modified %s '%s'" % (op, lit), pred, ("date", model.canon_op(op), prec)
+        shown = lit
+        if prec == "day" and rng.random() < 0.3:
+            # the same day written out in words (the documented free-form dates): the period is still that day
+            mon = ["January", "February", "March", "April", "May", "June", "July", "August", "September", "October", "November",
+                   "December"][t.month - 1]
+            shown = rng.choice(["%d %s %d" % (t.day, mon, t.year), "%s %d, %d" % (mon, t.day, t.year),
+                                "%d %s %d" % (t.day, mon[:3].lower(), t.year), "%02d %s %d" % (t.day, mon, t.year)])
+            prec = "day-in-words"
+        return "modified %s '%s'" % (op, shown), pred, ("date", model.canon_op(op), prec)
     if kind == "between":
         col = rng.choice(NUM_COLS)
         vals = sorted(set(v[1] for v in (model.col_value(e, col, prefix) for e in snap) if v is not model.UNDEF)) or [0]
